@@ -29,8 +29,9 @@ def run(tier, seed):
         "Mixed. Deductive: SAFE (no IndexError/ValueError/AssertionError/unbound local at any site) and DEC (every loop terminates) obligations are "
         "discharged for the StateBlock scanning helpers, the seven leaf block rules, ParserBlock.tokenize (progress: the paragraph fallback always matches; rules run only under level < maxNesting on non-empty lines), ParserInline.tokenize/skipToken (position strictly advances; memo invariant cache[p] > p) and the escape rule, under the line-table invariant WF (which the run-time monitors "
         "confirm on every real call). Bounded: a no-exception/no-hang monitor on the four API methods over the wrapped line universe and the inline "
-        "universe x 9-12 configurations. Containers, inline rules and core rules are not yet under contract (listed as bounded).")
-    rep.trusted_base = STD_TRUST
-    rep.assumptions = ["WF (DESIGN 3.2) holds at every rule call: monitored at run time, established deductively only for the leaf rules' callers in progress",
+        "universe x 9-12 configurations. blockquote, list_block and its marker scanners, parseLinkTitle and text_join are verified too. table, reference, the remaining inline rules, delimiter post-processing, smartquotes/replacements internals, "
+        "the renderer's Python-level safety and getLines (assumed contract) are covered by the bounded monitor only.")
+    rep.trusted_base += STD_TRUST
+    rep.assumptions += ["WF (DESIGN 3.2) holds at every rule call: monitored at run time, established deductively only for the leaf rules' callers in progress",
                        "generic rule contract for terminator rules (plugins assumed to satisfy it)", "StateBlock.getLines under an assumed contract"]
     return rep
